@@ -267,7 +267,7 @@ func c15(c *Check) {
 				}
 			}
 		}
-		return hasGuardQuiet(c, "x/aggregate/types.GenesisState.Validate", "reject make(map[string]bool)[$0.TokenPairs[(μ{-1} + 1)].Denoms[0]]"), "aggregate GenesisState.Validate must index Denoms[0] of every pair (a genesis with an empty list does not pass validation)"
+		return hasGuardQuiet(c, "x/aggregate/types.GenesisState.Validate", "reject make(map[string]bool)[$0.TokenPairs[μ{0}].Denoms[0]]"), "aggregate GenesisState.Validate must index Denoms[0] of every pair (a genesis with an empty list does not pass validation)"
 	}
 	audits := []*audit{
 		{fn: "adapter/gov.(HookAdapter).InitGenesis", kind: "type-assert", what: ".(*ethermint/types.EthAccount)", reason: "account prototype is wired to *EthAccount", check: protoAcc},
@@ -327,14 +327,14 @@ func c15(c *Check) {
 				return true, ""
 			}},
 		{fn: "rvesting/module.BeginBlocker", kind: "panic", what: "SendVestedCoins(", reason: "the amount sent is min(reward, pool balance) per denomination and denominations are unique, so the transfer cannot exceed the pool",
-			needs: []need{{"x/rvesting/types.validatePerBlockReward", "reject make(map[string]bool)[$0.(cosmos-sdk/types.Coins)#0[(μ{-1} + 1)].Denom]"}}},
+			needs: []need{{"x/rvesting/types.validatePerBlockReward", "reject make(map[string]bool)[$0.(cosmos-sdk/types.Coins)#0[μ{0}].Denom]"}}},
 		{fn: "teleport/app.(*Teleport).InitChainer", kind: "panic", what: "encoding/json.Unmarshal($2.AppStateBytes", reason: "malformed genesis file (fails before any validation)"},
 		{fn: "teleport/app.(*Teleport).InitChainer", kind: "panic", what: "adapter.(Manager).InitGenesis", reason: "system-contract deployment at chain start: wiring"},
 		{fn: "tendermint/types.bigEndianHeightBytes", kind: "slice-bounds", what: "zero([16]byte)[:16][8:]", reason: "constant bounds inside a 16-byte array"},
 		{fn: "xibc/module.(AppModule).InitGenesis", kind: "panic", what: "failed to unmarshal", reason: "malformed genesis JSON (rejected by ValidateGenesis as well)"},
 		{fn: "bsc/types.ParseValidators", kind: "slice-bounds", what: "[(μ{0} * 20):((μ{0} + 1) * 20)]", reason: "loop bound n = len/20"},
 		{fn: "bsc/types.ParseValidators", kind: "var-index", what: "make([][]byte)[μ{0}]", reason: "result is made with length n and the loop runs i < n"},
-		{fn: "aggregate/keeper.(Keeper).CallEVMWithData", kind: "var-index", what: "make([]cosmos-sdk/types.Attribute)[(μ{-1} + 1)]", reason: "attribute slice is made with len(res.Logs) and indexed by the range index over res.Logs"},
+		{fn: "aggregate/keeper.(Keeper).CallEVMWithData", kind: "var-index", what: "make([]cosmos-sdk/types.Attribute)[μ{0}]", reason: "attribute slice is made with len(res.Logs) and indexed by the range index over res.Logs"},
 		{fn: "client/types.ParseChainID", kind: "var-index", what: "[(len(strings.Split($0, \"-\")) - 1)]", reason: "strings.Split returns at least one element"},
 	}
 
